@@ -2,6 +2,7 @@ PROP = {
     "num": 5,
     "runs": [{"tag": "c05", "bin": "c05"}],
     "mismatch_is_failing": True,
+    "regen_files": ["GenIter.v"],
     "rule": "exhaustive: N<=6 (thorough 8) x every (front,back) position x {none, next, next_back, nth k, nth_back k for k in 0..=len+2} x every choice of the panicking element (and none) x {drop, count, last}, the caller catching every unwind and then using the iterator again; plus seeded histories for N in {1,2,3,5,8,16,33}. distinct = distinct CASE lines; non-trivial = a destructor is armed (second integer >= 0)",
     "nontrivial": lambda case, obs: int(case.split()[1]) >= 0,
     "manifest": {
